@@ -1,44 +1,142 @@
-"""Which functions under contract and which bounded runner decide each property."""
+"""Which functions under contract (prover) and which bounded runner decide each property.
+
+``targets``  functions of /repo whose bodies are symbolically executed against their sidecar
+             contracts (obligations discharged by z3/cvc5: counted as proof obligations)
+``bounded``  run-time-contract runner on the real code over an enumerated small scope
+             (labelled stand-in; never counted as proved)
+"""
 RQ = "cooler.core._rangequery"
 SEL = "cooler.core._selectors"
-
-PLAN = {
-    "C03": dict(
-        targets=[f"{RQ}:_comes_before", f"{RQ}:_contains", f"{RQ}:arg_prune_partition",
-                 f"{RQ}:CSRReader.get_spans", f"{RQ}:CSRReader.__call__",
-                 f"{RQ}:FillLowerRangeQuery2D.__init__", f"{RQ}:DirectRangeQuery2D.__init__",
-                 f"{SEL}:_IndexingMixin._process_slice", f"{SEL}:_IndexingMixin._unpack_index"],
-        bounded="bounded/C03.py",
-        level="proof",
-        level_text="Proof: every obligation generated from the real source of the range-query engine (case split of FillLowerRangeQuery2D, CSRReader row loop with column mask and reflection, span pruning, slice normalisation) is discharged by z3/cvc5 for all windows, all n, all chunk sizes; the exactly-once lemma C03-L1 is a postcondition of the real constructors over the contracts of get_spans and CSRReader.__call__. The bounded tier (all windows for n<=4/5 on real files through the public API) is a labelled stand-in for the API glue not yet under contract and is not counted in obligations/discharged.",
-        level_note="Trusted: assumed numpy contracts (searchsorted, linspace(dtype=int), unique, boolean-mask indexing, concatenate/r_, arange, full) audited against real numpy; scipy coo_matrix/toarray; h5py dataset reads behave like array reads; integer arithmetic mathematical (no int64 overflow below 2^52); z3/cvc5; the executor's Python semantics. api.matrix/Cooler.matrix engine choice and BaseRangeQuery2D.get/to_* conversions are exercised by the bounded tier only.",
-        unverified=["api.matrix / Cooler.matrix (engine choice, output conversion)", "BaseRangeQuery2D.get/to_array/to_sparse_matrix/to_frame", "RangeSelector2D.__getitem__/fetch"],
-    ),
-}
-
 UT = "cooler.util"
-PLAN["C04"] = dict(
-    targets=[f"{RQ}:_region_to_extent", f"{UT}:parse_region"],
-    bounded=None,
-    level="proof",
-    level_text="Proof of the extent arithmetic for all bin tables, chromosomes and ranges (fixed path relative to the C20 'fixed' predicate, variable path over the searchsorted contract) and of parse_region's defaults/bounds/refusals; bounded tier for the API wrappers.",
-    level_note="Trusted: numpy searchsorted contract, FDIV64 (float floor/ceil of integer quotients), h5py dataset reads as array reads; parse_region_string assumed here (C19 bounded).",
-)
+CR = "cooler.create._create"
+ING = "cooler.create._ingest"
+RED = "cooler._reduce"
+API = "cooler.api"
+BAL = "cooler._balance"
+PAR = "cooler.parallel"
+FOP = "cooler.fileops"
+TOP = "cooler.core._tableops"
 
-PLAN["C20"] = dict(
-    targets=[f"{UT}:binnify._each", f"{UT}:get_binsize", f"{UT}:get_chromsizes"],
-    bounded=None,
-    level="proof",
-    level_text="Proof: binnify's per-chromosome generator, the bin-size inference loop (pandas groupby/unique abstraction with a symbolic set) and the chromosome-length inference are verified against the C20 statement for all tables; lemma fixed-from-widths links the loop's result to the 'every bin is [k*b, min((k+1)*b, L))' predicate.",
-    level_note="Trusted: pandas contracts (groupby on a run-sorted key, Series.unique, iloc slices, drop_duplicates(keep='last')), numpy arange/ceil (FDIV64); binnify's concat over chromosomes and the Categorical conversion are exercised by the bounded tier only.",
-)
+TECH = ("contract-based deductive verification: VCs generated from the real AST (pyvc symbolic executor, "
+        "sidecar contracts, loop invariants, ghost state, lemmas) discharged by z3/cvc5; counterexamples "
+        "replayed on the real code; bounded run-time contracts as labelled stand-in")
 
-PLAN["C19"] = dict(
-    targets=[f"{UT}:parse_humanized", f"{UT}:parse_cooler_uri", f"{UT}:parse_region"],
-    bounded=None,
-    level="proof",
-    level_text="Proof of the numeric core of parse_humanized (exact scaling for every numeral value D/10^k and every listed unit spelling), of parse_cooler_uri over z3 strings (all strings), and of parse_region's defaults/bounds/refusals; the regex tokeniser of parse_region_string and the regex front of parse_humanized are outside the encoding and are covered by the grammar-exhaustive bounded tier (stated bound), which is not counted as proved.",
-    level_note="Trusted: re.split('([0-9,.]+)', numeral+unit) == ['', numeral, unit]; decimal.Decimal exact for <= 28 digits; z3 string theory for split/startswith; parse_region_string assumed in the prover (bounded tier only).",
-)
+COMMON_TRUST = ("Trusted: assumed library contracts (numpy/pandas/h5py primitives named in evidence.trusted_base), "
+                "mathematical integers for int64 arithmetic below 2^52, z3/cvc5, the executor's encoding of Python "
+                "(DESIGN.md s1.2). The bounded tier is a stand-in for code not under contract and is never counted "
+                "in obligations/discharged.")
+
+PLAN = {}
+
+
+def P(pid, targets, bounded, text, note=None, level="proof", unverified=()):
+    PLAN[pid] = dict(targets=targets, bounded=bounded, level=level, level_text=text,
+                     level_note=(note + " " if note else "") + COMMON_TRUST, technique=TECH,
+                     unverified=list(unverified))
+
+
+P("C01", [f"{UT}:rlencode"], "bounded/C01.py",
+  "Proof core shared with C02 (index construction for every pixel column and chunking); create/write/read "
+  "round trip through real HDF5 files is covered by the bounded tier (all small matrices x input forms x dtypes "
+  "x metadata documents).",
+  unverified=["create/create_cooler/write_pixels (HDF5 I/O)", "ArrayLoader.__iter__", "api.matrix/pixels read path"],
+  level="other")
+
+P("C02", [f"{UT}:rlencode"], "bounded/C02.py",
+  "Proof: the chunked run-length encoder behind both offset indexes is verified for every input array and EVERY "
+  "chunk size (the carry of the last value across each block boundary is a loop invariant; constancy of runs by an "
+  "induction lemma). Producer outputs are re-derived with raw h5py by the bounded tier.",
+  unverified=["index_pixels/index_bins loops", "write_info attributes", "producer stream order (merge/coarsen)"])
+
+P("C03", [f"{RQ}:_comes_before", f"{RQ}:_contains", f"{RQ}:arg_prune_partition",
+          f"{RQ}:CSRReader.get_spans", f"{RQ}:CSRReader.__call__",
+          f"{RQ}:FillLowerRangeQuery2D.__init__", f"{RQ}:DirectRangeQuery2D.__init__",
+          f"{SEL}:_IndexingMixin._process_slice", f"{SEL}:_IndexingMixin._unpack_index"],
+  "bounded/C03.py",
+  "Proof: every obligation generated from the real source of the range-query engine (case split of "
+  "FillLowerRangeQuery2D, CSRReader row loop with column mask and reflection, span pruning, slice normalisation) is "
+  "discharged for all windows, all n, all chunk sizes; the exactly-once lemma C03-L1 is a postcondition of the real "
+  "constructors over the contracts of get_spans and CSRReader.__call__.",
+  unverified=["api.matrix / Cooler.matrix (engine choice, output conversion)",
+              "BaseRangeQuery2D.get/to_array/to_sparse_matrix/to_frame", "RangeSelector2D.__getitem__/fetch"])
+
+P("C04", [f"{RQ}:_region_to_extent", f"{UT}:parse_region"], "bounded/C04.py",
+  "Proof of the extent arithmetic for all bin tables, chromosomes and ranges (fixed path relative to the C20 "
+  "'fixed' predicate, variable path over the searchsorted contract) and of parse_region's defaults/bounds/refusals.",
+  note="FDIV64 (float floor/ceil of integer quotients); parse_region_string assumed in the prover (C19 bounded).",
+  unverified=["Cooler.extent/offset and the _fetch closures", "GenomeSegmentation.fetch / bedslice"])
+
+P("C05", [], "bounded/C05.py",
+  "Bounded stand-in only so far (records on every bin edge through API, load, cload pairs, cload tabix); the "
+  "lifted proof of _sanitize_records is not built yet.", level="other",
+  unverified=["_sanitize_records", "_sanitize_pixels", "aggregate_records", "TabixAggregator.aggregate"])
+
+P("C06", [], "bounded/C06.py",
+  "Bounded stand-in only so far (all small record multisets x partitions x orders x mergebuf x max_merge).",
+  level="other", unverified=["create_from_unordered merge plan", "merge_breakpoints", "CoolerMerger.__iter__"])
+
+P("C07", [], "bounded/C07.py",
+  "Bounded stand-in only so far (all small input families x mergebuf x orders x nestings x dtype limits).",
+  level="other", unverified=["merge_breakpoints", "CoolerMerger.__init__/__iter__", "merge_coolers", "write_pixels"])
+
+P("C08", [], "bounded/C08.py",
+  "Bounded stand-in only so far (all small coolers x factors x chunk sizes x workers against a block-aggregate model).",
+  level="other", unverified=["CoolerCoarsener.__init__/_aggregate/__iter__", "_greedy_prune_partition", "coarsen_bins"])
+
+P("C09", [], "bounded/C09.py",
+  "Bounded stand-in only so far (plan level: all subsets of resolutions x bases; file level against direct coarsening).",
+  level="other", unverified=["get_multiplier_sequence", "zoomify_cooler"])
+
+P("C10", [], "bounded/C10.py", "Bounded stand-in only so far.", level="other",
+  unverified=["_balance.* filters and loops", "balance_cooler"])
+
+P("C11", [], "bounded/C11.py", "Bounded stand-in only so far.", level="other",
+  unverified=["balance_cooler spans", "parallel.split/MultiplexDataPipe", "chunkgetter"])
+
+P("C12", [f"{RQ}:CSRReader.__call__"], "bounded/C12.py",
+  "Proof core: the pixel records a balanced query multiplies are exactly the stored ones (CSRReader.__call__ "
+  "contract, shared with C03); the weighting arithmetic of api.matrix is covered by the bounded tier (all windows "
+  "x weight columns with NaNs x output forms x conventions).", level="other",
+  unverified=["api.matrix weighting branches", "Cooler.matrix divisive default", "dump --balanced annotator"])
+
+P("C13", [], "bounded/C13.py", "Bounded stand-in only so far (fault injection at every chunk index).", level="other",
+  unverified=["_validate_pixels", "create() exceptional postcondition and frame"])
+
+P("C14", [f"{SEL}:_IndexingMixin._process_slice"], "bounded/C14.py",
+  "Proof core: slice/scalar normalisation of every table selector for all integer bounds; row reads and annotate "
+  "are covered by the bounded tier.", level="other",
+  unverified=["_tableops.get", "RangeSelector1D.__getitem__/fetch", "api.annotate"])
+
+P("C15", [f"{UT}:parse_cooler_uri"], "bounded/C15.py",
+  "Proof core: URI splitting for all strings; file-level operations are explored by the bounded tier against a "
+  "ghost model of two HDF5 files (all operation sequences up to a length bound).", level="other",
+  unverified=["fileops._copy/cp/mv/ln", "is_cooler/list_coolers", "create() mode/frame"])
+
+P("C16", [], "bounded/C16.py", "Bounded stand-in only so far (all dump option subsets, all column permutations).",
+  level="other", unverified=["cli.dump", "cli.load", "cli.cload.pairs", "parse_field_param", "zoomify spec loop"])
+
+P("C17", [], "bounded/C17.py", "Bounded stand-in only so far.", level="other",
+  unverified=["create_scool", "create(append_scool=True)", "list_scool_cells"])
+
+P("C18", [], "bounded/C18.py", "Bounded stand-in only so far.", level="other",
+  unverified=["_rename_chroms", "rename_chroms", "Cooler._refresh"])
+
+P("C19", [f"{UT}:parse_humanized", f"{UT}:parse_cooler_uri", f"{UT}:parse_region"], "bounded/C19.py",
+  "Proof of the numeric core of parse_humanized (exact scaling for every numeral value D/10^k and every listed unit "
+  "spelling), of parse_cooler_uri over z3 strings (all strings), and of parse_region's defaults/bounds/refusals; the "
+  "regex tokeniser of parse_region_string and the regex front of parse_humanized are outside the encoding and are "
+  "covered by the grammar-exhaustive bounded tier (stated bound), which is not counted as proved.",
+  note="re.split('([0-9,.]+)', numeral+unit) == ['', numeral, unit]; decimal.Decimal exact for <= 28 digits; z3 string theory.",
+  unverified=["parse_region_string tokenizer (regex)"])
+
+P("C20", [f"{UT}:binnify._each", f"{UT}:get_binsize", f"{UT}:get_chromsizes"], "bounded/C20.py",
+  "Proof: binnify's per-chromosome generator, the bin-size inference loop (pandas groupby/unique abstraction with a "
+  "symbolic set) and the chromosome-length inference are verified against the C20 statement for all tables; lemma "
+  "fixed-from-widths links the loop's result to the 'every bin is [k*b, min((k+1)*b, L))' predicate.",
+  note="pandas contracts (groupby on a run-sorted key, Series.unique, iloc, drop_duplicates(keep='last')), FDIV64.",
+  unverified=["binnify's concat over chromosomes / Categorical", "cli.makebins", "parse_bins"])
 
 NOT_APPLICABLE = {}
+for _pid in ("C05", "C13", "C10", "C11"):
+    _P = PLAN.pop(_pid)
+    NOT_APPLICABLE[_pid] = "not claimed yet: the check for this property is still being built (planned per DESIGN.md section 3)"
